@@ -431,7 +431,12 @@ func (ex *Exec) checkInvariants(st *State, fr *Frame, head *ssa.BasicBlock, n in
 func (ex *Exec) havocLoop(st *State, fr *Frame, head *ssa.BasicBlock) {
 	body := fr.loops.body[head]
 	ms := newModSet()
+	var blocks []*ssa.BasicBlock
 	for b := range body {
+		blocks = append(blocks, b)
+	}
+	sort.Slice(blocks, func(i, j int) bool { return blocks[i].Index < blocks[j].Index })
+	for _, b := range blocks {
 		for _, ins := range b.Instrs {
 			switch x := ins.(type) {
 			case *ssa.Store:
@@ -462,7 +467,12 @@ func (ex *Exec) havocLoop(st *State, fr *Frame, head *ssa.BasicBlock) {
 	if ms.cellsAll {
 		// only cells whose address escapes (captured by a closure or passed
 		// to a callee) can be written by code outside the loop body's text
+		var esc []*ssa.Alloc
 		for a := range escapingAllocs(fr.fn) {
+			esc = append(esc, a)
+		}
+		sort.Slice(esc, func(i, j int) bool { return esc[i].Pos() < esc[j].Pos() || (esc[i].Pos() == esc[j].Pos() && esc[i].Name() < esc[j].Name()) })
+		for _, a := range esc {
 			if v, ok := st.regs[a]; ok && v.Kind == VCellPtr {
 				st.cells[v.Cell] = ex.havocVal(st, v.Cell.Name, v.Cell.Ty)
 			}
@@ -476,8 +486,13 @@ func (ex *Exec) havocLoop(st *State, fr *Frame, head *ssa.BasicBlock) {
 	ex.applyModSet(st, ms)
 	st.bumpAlloc()
 	// re-establish that havocked cells hold allocated ids
-	for c, v := range st.cells {
-		if v.Kind == VTerm {
+	var cs []*Cell
+	for c := range st.cells {
+		cs = append(cs, c)
+	}
+	sort.Slice(cs, func(i, j int) bool { return cs[i].ID < cs[j].ID })
+	for _, c := range cs {
+		if v := st.cells[c]; v.Kind == VTerm {
 			ex.knownVal(st, v.T, c.Ty)
 		}
 	}
